@@ -913,9 +913,12 @@ def _get_overlap_rechunked_chunks(x, depth2, boundary2):
             # than a full kernel window (before + after + 1).  Moving-window
             # kernels (e.g. bottleneck via xarray rolling) fail on such
             # blocks; merge the edge chunk into its neighbor instead.
-            if len(c) > 1 and c[0] <= before:
+            # (Only where a halo is missing: with no depth on this side an
+            # empty edge chunk is not "too small", and merging it would change
+            # the number of blocks on an axis the overlap does not touch.)
+            if before and len(c) > 1 and c[0] <= before:
                 c = (c[0] + c[1],) + c[2:]
-            if len(c) > 1 and c[-1] <= after:
+            if after and len(c) > 1 and c[-1] <= after:
                 c = c[:-2] + (c[-2] + c[-1],)
         chunks.append(c)
     return tuple(chunks)
